@@ -1052,6 +1052,16 @@ def import_order_checks(ctx, fx, tmpdocs, damaged_files):
     ctx.obligation("import-order-subprocesses-completed", not broken, "; ".join(broken[:3]))
 
 
+def guarded_digest(path, data, timeout=60.0):
+    """extract_digest under a watchdog: a hostile input must not be able to hang the check (the looping thread
+    cannot be killed; the caller stops feeding damaged inputs when this returns 'hang')"""
+    box = []
+    t = threading.Thread(target=lambda: box.append(extract_digest(path, data)), daemon=True)
+    t.start()
+    t.join(timeout)
+    return box[0] if box else "hang"
+
+
 def damaged_input_checks(ctx, mon: ResidueMonitor, fx):
     """Failing (and accidentally still succeeding) inputs for every format that can be damaged cheaply; the
     residue is compared after each single extraction.  The same damaged input is extracted twice in a row:
@@ -1079,7 +1089,14 @@ def damaged_input_checks(ctx, mon: ResidueMonitor, fx):
                       "how": "tools/props/c15.py damaged_variants(); extract with get_extractor(name)(io.BytesIO(data), name)"}
             if len(data) <= 4096:
                 replay["data"] = data
-            first = extract_digest(path, data)
+            first = guarded_digest(path, data)
+            if first == "hang":
+                # liveness on hostile input is C12's subject; the looping thread holds state, so stop this phase here
+                ctx.count("damaged:hang-watchdog-stopped-phase")
+                ctx.extra["damaged_hang"] = name
+                ctx.extra["damaged_inputs"] = kinds
+                mon.threads = {t.ident for t in threading.enumerate()}
+                return
             mon.step(name, first, replay, key=src.name)
             if tag.startswith("zip:") and ctx.tier == "quick":
                 second = first
@@ -2229,7 +2246,7 @@ def workload_checks(ctx, pe, aes, world, docs, base, tmproot, special, aes0=Fals
             for t in range(nthreads):
                 w = list(fast)
                 rng.shuffle(w)
-                w = w[: ctx.n(14, len(fast))]
+                w = w[: ctx.n(10, len(fast))]
                 # PDFs in every thread (the patched critical section), one slow AES document per round
                 w += [d for d in fast if d.endswith(".pdf")][:4]
                 if "enc_aes-128" in special and t < 4:
@@ -2298,7 +2315,8 @@ def fresh_process_history_checks(ctx, family, installers, base):
     interpreter).  `installers` are (slow) documents used only in first position."""
     from concurrent.futures import ThreadPoolExecutor
     jobs = [[a, b] for a in family + installers for b in family if a != b]
-    jobs += [[a, a] for a in family]
+    if ctx.tier == "thorough":
+        jobs += [[a, a] for a in family]
 
     def one(job):
         p = subprocess.run([sys.executable, "-c", _HISTORY_SNIPPET], input=json.dumps(job), text=True, capture_output=True,
@@ -2517,7 +2535,7 @@ def entry_point_failure_checks(ctx, mon, fx, tmpdocs):
         for _ in range(3):
             outs.append(call(path, **kw))
             mon.step(f"read_file({name})", outs[-1], {"path": str(path), "kwargs": kw, "call": "sharepoint2text.read_file(path, **kwargs)"},
-                     key=f"read_file:{name}")
+                     key="read_file-entry-point")        # one finding per kind of residue; the first failing call is in the replay
         if len(set(outs)) != 1:
             ctx.finding(f"history-dependent:read_file:{name}", f"read_file({name}) gives {outs} on three consecutive calls",
                         {"path": str(path), "kwargs": kw, "outcomes": outs})
@@ -2605,7 +2623,7 @@ def ambient_change_checks(ctx, fx, tmpdocs):
         if str(want).startswith("baseline-failed"):
             broken.append(f"{scen}{ext}: {want}")
         elif got != want:
-            ctx.finding(f"history-dependent:ambient-{scen}:{ext}",
+            ctx.finding(f"history-dependent:ambient-{scen}",
                         f"after the history {hist} the last call gives {got}; a fresh process in the same final environment gives {want}",
                         {"history": hist, "final_environment": job, "got": got, "fresh_process": want})
     ctx.obligation("ambient-change-baselines-computed", not broken, "; ".join(broken[:3]))
